@@ -14,6 +14,7 @@ import (
 	"sync"
 	"sync/atomic"
 	"time"
+	"unicode/utf8"
 
 	"github.com/sirupsen/logrus"
 	"github.com/spf13/viper"
@@ -111,7 +112,7 @@ type c19Expect struct {
 
 func (c19) Run(e *Env) {
 	e.ProbeDecl("event-via-datagram", "event-via-http", "parked-for-lookup", "lookup-success", "lookup-failure", "cache-hit", "two-events-one-parser-first-still-held", "backend-held", "semaphore-full", "wait-for-events-while-held",
-		"no-backends", "escaped-newline", "absent-date", "all-fields", "release-parked-before-hand-over", "forwarder-mode", "forwarder-retry", "backend-send-fails")
+		"no-backends", "escaped-newline", "absent-date", "all-fields", "release-parked-before-hand-over", "forwarder-mode", "forwarder-retry", "backend-send-fails", "text-not-utf8")
 	nBackends := e.Draw(4)
 	maxConc := e.Range(1, 3)
 	// forwarder mode: the pipeline ends in the real HttpForwarderHandlerV2 and the event must arrive
@@ -291,6 +292,14 @@ func (c19) Run(e *Env) {
 		}
 		sort.Strings(uniq)
 		ev.Tags = uniq
+		if forwarder {
+			// proto3 strings are valid UTF-8: the one thing the upstream cannot receive byte for byte
+			ev.Text = strings.ToValidUTF8(ev.Text, "\uFFFD")
+			for i, t := range ev.Tags {
+				ev.Tags[i] = strings.ToValidUTF8(t, "\uFFFD")
+			}
+			sort.Strings(ev.Tags)
+		}
 		return eventString(ev)
 	}
 	sortedTags := func(ev gostatsd.Event) string {
@@ -422,9 +431,12 @@ func (c19) Run(e *Env) {
 	genEvent := func() evSpec {
 		nEv++
 		title := fmt.Sprintf("ev%d", nEv)
-		text := []string{"plain", "", "two\nlines", "pipe|inside", "ends with a newline\n", "\nstarts with one", "a\n\nb\n"}[e.Draw(7)]
+		text := []string{"plain", "", "two\nlines", "pipe|inside", "ends with a newline\n", "\nstarts with one", "a\n\nb\n", "not \xff utf-8 \xc3"}[e.Draw(8)]
 		if strings.Contains(text, "\n") {
 			e.Probe("escaped-newline")
+		}
+		if !utf8.ValidString(text) {
+			e.Probe("text-not-utf8")
 		}
 		// Either a small pool of senders (several events per sender; then only datagrams through one
 		// parser, so that the cache is asked in submission order) or one sender per event (the cache's
@@ -469,6 +481,9 @@ func (c19) Run(e *Env) {
 			if e.Chance(1, 4) {
 				ev.Tags = append(ev.Tags, "static:1")
 			}
+			if !utf8.ValidString(text) && e.Bool() {
+				ev.Tags = append(ev.Tags, "zone:\xfe\xfe")
+			}
 			attrs = append(attrs, "#"+strings.Join(ev.Tags, ","))
 		}
 		wireText := strings.ReplaceAll(text, "\n", "\\n")
@@ -481,7 +496,8 @@ func (c19) Run(e *Env) {
 		for _, a := range attrs {
 			line += "|" + a
 		}
-		return evSpec{base: ev, line: line, viaHTTP: !sharedSources && e.Chance(1, 3), src: src}
+		// (a protobuf request cannot carry a string that is not UTF-8)
+		return evSpec{base: ev, line: line, viaHTTP: !sharedSources && e.Chance(1, 3) && utf8.ValidString(text), src: src}
 	}
 
 	submit := func(sp evSpec) {
@@ -490,14 +506,14 @@ func (c19) Run(e *Env) {
 		byTitle[x.title] = x
 		base := sp.base
 		if base.DateHappened == 0 {
-			base.DateHappened = time.Now().Unix() // receipt time (the datagram path fills it in; the HTTP path carries what it was given)
+			base.DateHappened = time.Now().Unix() // receipt time, on the datagram path and on the HTTP path alike
 		}
 		bcopy := base
 		unpeeked[sp.src] = append(unpeeked[sp.src], &c19Unpeeked{x: x, base: &bcopy})
 		nUnpeeked++
 		if sp.viaHTTP {
 			e.Probe("event-via-http")
-			msg := &pb.EventV2{Title: base.Title, Text: base.Text, DateHappened: base.DateHappened, Hostname: sp.src, AggregationKey: base.AggregationKey, SourceTypeName: base.SourceTypeName, Tags: base.Tags}
+			msg := &pb.EventV2{Title: base.Title, Text: base.Text, DateHappened: sp.base.DateHappened, Hostname: sp.src, AggregationKey: base.AggregationKey, SourceTypeName: base.SourceTypeName, Tags: base.Tags}
 			if base.Priority == gostatsd.PriLow {
 				msg.Priority = pb.EventV2_Low
 			}
